@@ -11,3 +11,5 @@ import Halo.Props.C09
 import Halo.Props.C10
 import Halo.Props.C12
 import Halo.Props.C15
+import Halo.Props.C01
+import Halo.Props.C06
